@@ -103,9 +103,9 @@ func c15decorate(r *rand.Rand, s string) string {
 
 func c15n(tier string) int {
 	if tier == "thorough" {
-		return 300000
+		return 2000000
 	}
-	return 8000
+	return 30000
 }
 
 type c15case struct {
